@@ -75,7 +75,9 @@ def gen_hierarchy(rng):
                        'block': rng.choice(BLOCKS) if rng.random() < 0.5 else None}
         order.append(name)
     h = {'types': types, 'order': order, 'block_default': rng.choice(('', '', '', 'extension', 'restriction', '#all', 'substitution')),
-         'elements': [], 'subst': None, 'simple': rng.random() < 0.5}
+         'elements': [], 'subst': None, 'simple': rng.random() < 0.5,
+         # an element without a type (xs:anyType): every complex type derives from it, a root type by restriction
+         'untyped_block': rng.choice(EBLOCKS) if rng.random() < 0.7 else None}
     for i in range(rng.randint(2, 4)):
         h['elements'].append({'name': f'el{i}', 'type': rng.choice(order),
                               'block': rng.choice(EBLOCKS) if rng.random() < 0.6 else None,
@@ -153,6 +155,8 @@ def schema_text(h):
         bl = f' block="{e["block"]}"' if e['block'] is not None else ''
         nl = ' nillable="true"' if e['nillable'] else ''
         kids += f'<xs:element name="{e["name"]}" type="t:{e["type"]}"{bl}{nl} minOccurs="0" maxOccurs="unbounded"/>'
+    ub = f' block="{h["untyped_block"]}"' if h.get('untyped_block') is not None else ''
+    kids += f'<xs:element name="u"{ub} minOccurs="0" maxOccurs="unbounded"/>'
     if h['simple']:
         kids += ('<xs:element name="s" type="t:S0" minOccurs="0" maxOccurs="unbounded" nillable="true"/>'
                  '<xs:element name="f" type="xs:decimal" fixed="1.0" minOccurs="0" maxOccurs="unbounded" nillable="true"/>')
@@ -262,6 +266,22 @@ def variants_for(h, rng, tier):
         x = 't:' + rng.choice(names)
         ok, tags = ref_element(h, decl, e['block'], e['nillable'], x, 'true', [], None)
         yield elem_xml(e['name'], x, 'true'), ok, tags
+    ublocked = blockset(h.get('untyped_block'), h['block_default'], True)
+    for n in names:
+        chain = []
+        cur = n
+        while cur is not None:
+            chain.append(types[cur]['method'] or 'restriction')      # a root type restricts xs:anyType
+            cur = types[cur]['base']
+        kids = [nm for nm, mn in types[n]['content'] if mn == 1]
+        tags = {'xsi:type', 'untyped-element'}
+        if set(chain) & ublocked:
+            ok, tags = False, tags | {'blocked'}
+        elif types[n]['abstract']:
+            ok, tags = False, tags | {'abstract-type'}
+        else:
+            ok = True
+        yield elem_xml('u', 't:' + n, None, kids), ok, tags
     if h['simple']:
         s1_ok = 'restriction' not in blockset(None, h['block_default'], True)
         for x, text, ok in ((None, '5', True), (None, '-1', False), ('t:S1', '5', s1_ok), ('t:S1', '12', False),
